@@ -506,7 +506,14 @@ func (s *Sim) Resume(t *Task) {
 	if t.Stalled {
 		t.StallEnd = s.Now()
 	}
-	s.mixSig("r", t.Name, t.Point)
+	// an adopted engine goroutine enters the signature by the function it runs, not by
+	// its name: the name carries a goroutine-id offset, which differs between processes
+	// (the runtime's own goroutines take ids too)
+	who := t.Name
+	if !t.Harness {
+		who = "bg:" + t.Origin
+	}
+	s.mixSig("r", who, t.Point)
 	t.resume <- struct{}{}
 	synctest.Wait()
 }
